@@ -6,6 +6,8 @@ VERIF = os.path.dirname(os.path.dirname(os.path.abspath(__file__)))
 
 ALL = ['C%02d' % i for i in range(1, 21)]
 
+SCHED_TRUST = 'Trusted: Coq kernel, the hand-written scheduler model (exact integer arithmetic; float rounding modelled out; exact model-vs-implementation comparison only on the dyadic grid; off the grid only oracles with a stated tolerance), harness incl. capacity tabulation from the calendars; interpreter recursion depth not modelled.'
+
 # property -> (technique, level text, level note, design_ref)
 CHECKS = {
     'C17': (
@@ -67,6 +69,46 @@ CHECKS = {
         'Trusted: Coq kernel, hand-written model of the repaired clone, harness (state builder, snapshot by identity). Dependency lists compare as sets (the code does not keep their order; the property says "same set"). '
         'del of a built-in field before cloning is excluded.',
         '4.10'),
+    'C02': (
+        'Coq proof of an invariant of the abstract scheduling machine refined by the forward pass (bounds of leaf starts and reservations, milestone placement, roll-up of prerequisite summaries to their leaves) + reflection of the boolean oracle evaluated on the implementation\'s schedules + differential correspondence',
+        'Theorems (Props_C02.v, closed under the global context; WFin w, cap_nonneg, forward = Ok): every leaf without user dates starts, and has every reservation, on a day not earlier than project start, clock, min_start and the end of every task below any own or inherited prerequisite; '
+        'milestones sit exactly at the latest prerequisite end or the project start; c02_b is equivalent to that statement and the model\'s output passes it. The start clause for leaves with a user-fixed END is refuted (C02_fixed_end_conflict: start <= end of C07 wins), the reservation clause holds for them.',
+        SCHED_TRUST, '4.2'),
+    'C04': (
+        'Coq proof of per-task ledger facts as an invariant of the abstract scheduling machine for both passes (conservation, once per day, window, date/last-day agreement, nothing for milestones/completed/summaries, fixed dates kept) + full reflection of the oracle + exact differential correspondence',
+        'Theorems (Props_C04.v, closed; WFin w, cap_nonneg, capacities <= 24h-equivalent units [cap_small, shown necessary by C04_cap_small_needed], forward/backward = Ok): C04_conserve_once, C04_window, C04_nothing, C04_fixed, both schedulers; c04_b <-> statement; model output passes the oracle.',
+        SCHED_TRUST, '4.4'),
+    'C06': (
+        'Coq proof that every member gets both dates and that the forward pass does not read the clock when clock <= project start (equal final states for any two such clocks); purity, shape and repeatability are decided by the differential run (stated as such)',
+        'Theorems (Props_C06.v, closed): C06_dates_forward/backward, C06_forward/backward_reaches_all, C06_clock (whole final state equal for two clocks <= project start when both runs return), C06_clock_pass, C06_clock_outcome. '
+        'Input purity, same ids/hierarchy/links/attributes in the result, and equal results of repeated calls are true of any Gallina function by construction: they are checked on the implementation only (snapshots before/after, calc twice on one scheduler, once on a fresh one, once with another clock).',
+        SCHED_TRUST, '4.6'),
+    'C07': (
+        'Coq proof of start <= end and of the roll-ups as invariants of the abstract scheduling machine for both passes, tree induction for WBS.start/end + full reflection of the oracle + differential correspondence',
+        'Theorems (Props_C07.v, closed; WFin w): C07_forward/backward (summary start = min, end = max, estimate/spent = sums of children, user values replaced), C07_order_forward/backward, C07_wbs (min/max over roots = min/max over all members), c07_b <-> statement, model output passes the oracle.',
+        SCHED_TRUST, '4.7'),
+    'C13': (
+        'Coq proof of the CSV codec, field codecs, flatten/rebuild and the composed round trip, fixpoint, BOM and hand-written-file theorems + byte-exact differential correspondence (file bytes = model text, re-read WBS = model) with constants extracted from the source on every run',
+        'Theorems (Props_C13.v, closed under the global context): C13_codec (any text incl. delimiter, quotes, CR, LF), C13_fields (ids, dates 1969-2068 by exhaustive sweep, booleans, predecessor lists, floats under the Section hypothesis parse (repr x) = Some x), '
+        'C13_rebuild (assemble (flatten w) = Ok w), C13_roundtrip, C13_fix, C13_bom, C13_handwritten; domain wbs_ok evaluated on every generated case.',
+        'Trusted: Coq kernel + vm_compute, hand-written model of csv (excel dialect, ;), strptime/strftime on the canonical form, float repr/float() as a Section hypothesis exercised by the harness; harness.',
+        '4.13'),
+    'C19': (
+        'Coq proof that reference extractors applied to the model\'s output of the three renderers return exactly one entry per task / dependency, that names cannot alter other entries, and that the notebook form is the escaped document + byte-exact differential correspondence with templates and encoders extracted from the source on every run',
+        'Theorems (Props_C19.v, closed): C19_gantt, C19_net (+count), C19_json (parses to expected entries, unique link ids, progress in 0..1, no "<"), C19_inject, C19_repr, C19_mermaid_div, C19_dhtmlx_script, C19_source_literals/templates, C19_refuted_* for the unrepaired shapes; '
+        'C19_gantt_each_task_once is partial (regrouping by section being a permutation is stated, proved only without sections).',
+        'Trusted: Coq kernel + vm_compute, hand-written model, harness; ASSUMPTIONS: the Mermaid line grammar and entity codes (#NN;), "an HTML element ends at its first closing tag", JSON as json.dumps writes it - no JavaScript engine offline to validate them.',
+        '4.19'),
+    'C08': (
+        'Coq proof of tightness, date encoding, WBS order and removal-independence for the forward pass (machine invariants; order by induction on the recursive pass; independence by a simulation between two runs) + two-way reflection of the oracle + exact differential correspondence (dates, row order) and a direct with/without-task comparison on the implementation',
+        'Theorems (Props_C08.v, closed): C08_tight / C08_tight_leaves (balancing on: resource fully booked from the release day up to the last work day, in the FINAL ledger), C08_encode (both date formulas, any clock), C08_order (unlinked leaves served in WBS order), '
+        'C08_indep (balancing off: deleting an isolated task leaves every other task\'s dates unchanged; removal of linked clusters/subtrees not covered), c08_task_b / c08_order_b <-> statements, model output passes the oracle.',
+        SCHED_TRUST + ' Leaves with user-fixed start or end are outside the C08 theorems (free_leaf).', '4.8'),
+    'C14': (
+        'Coq proof that both scheduler models answer Ok or Err and never Crash under WFin (fuel suffices, no None arithmetic, no empty max/min, divisors positive), that each unschedulable class answers Err and that Err has no other cause (completeness) + outcome-class correspondence incl. an extra stream of unschedulable inputs; recursion depth probed on the implementation (known finding)',
+        'Theorems (Props_C14.v, closed): C14_total_forward/backward, C14_compute_no_crash, C14_divisors_positive, C14_err_isolated / _future_end / _no_capacity / _cycle / _hierarchy_cycle, C14_reentry, C14_err_causes_*, C14_complete_* (Err only from the four causes, read as: no reachable machine state is stuck). '
+        'Known finding F16 (chains deeper than the interpreter recursion limit raise RecursionError) is probed on every run and reported as KNOWN-FINDING; the model has no interpreter stack.',
+        SCHED_TRUST, '4.14'),
 }
 
 NOT_YET = 'check not built yet in this round (planned, see DESIGN.md section 4)'
